@@ -5,3 +5,4 @@ import "github.com/fxamacker/cbor/v2"
 func cborTag(n uint64, content any) any { return cbor.Tag{Number: n, Content: content} }
 func cborRaw(b []byte) any              { return cbor.RawMessage(append([]byte{}, b...)) }
 func cborByteString(b []byte) any       { return cbor.ByteString(string(b)) }
+func cborSimple(n uint8) any            { return cbor.SimpleValue(n) }
